@@ -692,6 +692,13 @@ func derivePrior(r *Rng, view []*MNode) ([]*MNode, []string) {
 				continue // absent (with everything below it)
 			}
 			c := &MNode{Name: k.Name, Stat: k.Stat.CloneVT(), Content: append([]byte{}, k.Content...)}
+			if isReg(k.Stat) && k.Stat.Linkname == "" && int64(len(c.Content)) != k.Stat.Size && k.Stat.Size < 1<<21 {
+				// the copy on disk has the ANNOUNCED size (that is what the diff compares), whatever the sender will serve
+				for int64(len(c.Content)) < k.Stat.Size {
+					c.Content = append(c.Content, 'p')
+				}
+				c.Content = c.Content[:k.Stat.Size]
+			}
 			c.Stat.Xattrs = nil // not compared by the diff; user.* xattrs cannot be set on special files
 			m := os.FileMode(k.Stat.Mode)
 			switch {
@@ -762,6 +769,13 @@ func genC07(g *Gen) {
 			cls = "wide"
 		}
 		fixLinkChains(view)
+		// the bytes the sender serves for an id need not have the length announced in its STAT
+		// (the file changed between the walk and the read; the protocol does not tie them)
+		if !huge && r.Chance(35) {
+			if len(c07ResizeServed(r, view, "")) > 0 {
+				cls += "+resized"
+			}
+		}
 		var prior []*MNode
 		var unchanged []string
 		if !huge && r.Chance(45) {
@@ -857,6 +871,60 @@ func genC07(g *Gen) {
 
 func dirNode(name string, kids ...*MNode) *MNode {
 	return &MNode{Name: name, Stat: &types.Stat{Mode: uint32(os.ModeDir | 0755), ModTime: 1600000000e9}, Kids: kids}
+}
+
+// c07ResizeServed makes, for some regular files of the announced view, the announced Size differ
+// from the length of the content the reference sender serves: shorter content (at least one
+// byte kept when there was one), longer content, no content at all although Size > 0.
+// Returns the paths changed (value: whether the announced Size changed).
+func c07ResizeServed(r *Rng, nodes []*MNode, dir string) map[string]bool {
+	out := map[string]bool{}
+	for _, n := range nodes {
+		p := n.Name
+		if dir != "" {
+			p = dir + "/" + n.Name
+		}
+		if n.IsDir() {
+			for q, v := range c07ResizeServed(r, n.Kids, p) {
+				out[q] = v
+			}
+			continue
+		}
+		if !isReg(n.Stat) || n.Stat.Linkname != "" || len(n.Content) > 100000 || !r.Chance(30) {
+			continue
+		}
+		k := int64(1 + r.Intn(20))
+		if r.Chance(10) {
+			k = int64(4096 + r.Intn(40000))
+		}
+		size0 := n.Stat.Size
+		switch r.Intn(4) {
+		case 0: // announced larger than served
+			n.Stat.Size = int64(len(n.Content)) + k
+		case 1: // served shorter than announced, something is served
+			if len(n.Content) >= 2 {
+				n.Content = append([]byte{}, n.Content[:1+r.Intn(len(n.Content)-1)]...)
+			} else {
+				n.Stat.Size = int64(len(n.Content)) + k
+			}
+		case 2: // served longer than announced
+			n.Content = append(append([]byte{}, n.Content...), fillContent(r, int(k))...)
+		case 3: // nothing served although Size > 0
+			n.Content = nil
+			if n.Stat.Size == 0 {
+				n.Stat.Size = k
+			}
+		}
+		out[p] = n.Stat.Size != size0
+	}
+	return out
+}
+
+// a regular file whose announced size is not the length of what is served
+func sizedNode(name, content string, size int64) *MNode {
+	n := fileNode(name, content)
+	n.Stat.Size = size
+	return n
 }
 
 func fileNode(name string, content string) *MNode {
@@ -980,6 +1048,18 @@ func directedC07() []Sx {
 			c07Ext(c07Input(v(), nil, nil, false, 0, sc, 2, false), t, []string{"l"}),                // a symlink before z
 			c07Ext(c07Input(nested(), nil, nil, false, 0, sc, 1, false), t, []string{"src/cache"}),   // a directory with a file, before src/m and top
 			c07Ext(c07Input(v(), prior, []string{"d/a"}, true, 0, sc, 1, false), t, []string{"d/b"}), // Merge, prior destination, one file rejected
+		)
+	}
+	// the served bytes are shorter / longer than the announced Size, or absent: what is stored is what was sent
+	resized := func() []*MNode {
+		return []*MNode{dirNode("d", sizedNode("gone", "", 7), sizedNode("grown", "0123456789", 3), fileNode("same", "exact"), sizedNode("shrunk", "abcde", 10)),
+			sizedNode("e-big", string(fillContent(NewRng(5), 300)), 70000)}
+	}
+	rprior := []*MNode{dirNode("d", fileNode("gone", "old"), fileNode("shrunk", "an older, longer content"))}
+	for t := 0; t < c0607Transports; t++ {
+		over = append(over,
+			c07Ext(c07Input(resized(), nil, nil, false, 0, refSendScript{Chunk: 2, StatWeight: 50, Pick: 3, Seed: 31}, 1, false), t, nil),
+			c07Ext(c07Input(resized(), rprior, nil, false, 0, refSendScript{Chunk: 100, StatWeight: 100, Pick: 1, Seed: 32}, 0, false), t, nil),
 		)
 	}
 	// one REQ kept in flight while the other writers have theirs to send
